@@ -85,9 +85,25 @@ def verify_lemma(reg, lem, prefix=""):
     return res
 
 
-def verify_function(reg, contract, prefix=""):
+def verify_function_cases(reg, contract, prefix=""):
+    """A contract may ask for one verification per value of finite-domain string parameters (split_on):
+    the union of the cases is the whole domain, which the contract's requires must imply (checked at call sites
+    by the key-domain obligations)."""
+    import itertools
+
+    if not contract.split_on:
+        return [verify_function(reg, contract, prefix)]
+    doms = [contract.str_domains[p] for p in contract.split_on]
+    out = []
+    for combo in itertools.product(*doms):
+        fixed = dict(zip(contract.split_on, combo))
+        out.append(verify_function(reg, contract, prefix, fixed))
+    return out
+
+
+def verify_function(reg, contract, prefix="", fixed=None):
     """The real function body against its contract."""
-    uid = prefix + "fn:" + contract.fq
+    uid = prefix + "fn:" + contract.fq + ("".join("[%s=%s]" % kv for kv in sorted((fixed or {}).items())))
     res = UnitResult(uid, "function")
     ctx = Ctx(reg, uid)
     res.ctx = ctx
@@ -101,14 +117,19 @@ def verify_function(reg, contract, prefix=""):
             t = contract.args.get(pn)
             if t is None:
                 raise Unsupported("contract of %s gives no type for parameter %s" % (contract.fq, pn))
-            v = fresh_of_type(ex, t, pn)
+            if fixed and pn in fixed:
+                from .symexec import SV
+
+                v = SV("str", ctx.strid(fixed[pn]), fixed[pn])
+            else:
+                v = fresh_of_type(ex, t, pn)
             st.env[pn] = v
             st.defd[pn] = z3.BoolVal(True)
             res.params.append((pn, v))
             if v.k == "ref":
                 ctx.param_refs.append(v.z)
                 ctx.facts.append(v.z > 0)
-            if v.k == "str" and pn in contract.str_domains:
+            if v.k == "str" and v.x is None and pn in contract.str_domains:
                 ctx.str_domains[v.z.get_id()] = list(contract.str_domains[pn])
         if fsrc.node.args.vararg:
             from .symexec import mk_tuple
@@ -242,6 +263,8 @@ def check_frame(ex, ctx, contract, entry, o, fsrc):
         allowed = by_field.get(f, [])
         # objects allocated during the call (negative references) are not part of the caller's frame
         x = ctx.fresh("frame_x")
+        if any(r is None for (r, c) in allowed):
+            continue  # the whole field may change
         conds = [x > 0] + [(x != r) if c is None else z3.Or(x != r, z3.Not(c)) for (r, c) in allowed]
         ctx.oblige(o, z3.Implies(z3.And(*conds), arr[x] == a0[x]), "frame", fsrc.node,
                    "heap array %s changes only where the contract's modifies allows" % f)
